@@ -1,6 +1,6 @@
 ---------------------------- MODULE InputTrace ----------------------------
 (* Trace specification for Input / InputExp (C17).  hdr = the configuration record;     *)
-(* lines: construct(refused), start(out), put(v, x, ret, out).                          *)
+(* lines: construct(refused), start(out), put(v, x, ret, out), put_raise(v, x, out, exc). *)
 EXTENDS TraceLib
 K == 6
 VARIABLES cfg, phase, out, ret, tid, l
@@ -16,6 +16,12 @@ Step == /\ l <= Len(Ev(tid))
                 /\ (~e.refused => out' = e.out)          \* output right after start-up
              \/ /\ e.ev = "put" /\ I!Put(e.v, e.x)
                 /\ out' = e.out /\ ret' = e.ret /\ ~e.cerr
+                /\ ~(cfg.outfail # 0 /\ out' = cfg.outfail /\ out' # out)   \* (that output event fails)
+             \* the value was accepted and stored, then the block's own output event failed:
+             \* an error of the simulation, reported as such - not a rejected put
+             \/ /\ e.ev = "put_raise" /\ I!Put(e.v, e.x)
+                /\ ret' = TRUE /\ out' = e.out /\ out' # out /\ out' = cfg.outfail
+                /\ e.cerr                                  \* (the caller gets the exception, whatever its type)
         /\ l' = l + 1 /\ UNCHANGED tid
 TraceSpec == TraceInit /\ [][Step]_<<vars, tid, l>>
 ASSUME InitRegs
